@@ -25,7 +25,11 @@ import time
 
 VERIF = os.path.dirname(os.path.dirname(os.path.abspath(__file__)))
 REPO = os.environ.get('VERIF_REPO', '/repo')
+# evidence/ and replays/ describe /repo itself; a run against a scratch copy (VERIF_REPO) writes elsewhere
+_SCR = None if os.path.realpath(REPO) == '/repo' else os.path.join(os.path.dirname(os.path.dirname(os.path.abspath(__file__))), '_work', 'scratch_out')
 WORK = os.path.join(VERIF, '_work')
+REPLAY_DIR = os.path.join(_SCR, 'replays') if _SCR else os.path.join(VERIF, 'replays')
+EVID_DIR = os.path.join(_SCR, 'evidence') if _SCR else os.path.join(VERIF, 'evidence')
 COQ = os.path.join(VERIF, 'coq')
 
 CXX = ['g++', '-std=c++20', '-O1', '-g', '-fno-omit-frame-pointer', '-Wno-deprecated-declarations']
@@ -490,8 +494,8 @@ def run_check(chk, tier, seed, replay=None):
     rundir = os.path.join(WORK, 'run', pid)
     shutil.rmtree(rundir, ignore_errors=True)
     os.makedirs(rundir)
-    os.makedirs(os.path.join(VERIF, 'replays'), exist_ok=True)
-    os.makedirs(os.path.join(VERIF, 'evidence'), exist_ok=True)
+    os.makedirs(REPLAY_DIR, exist_ok=True)
+    os.makedirs(EVID_DIR, exist_ok=True)
     problems = []          # things that make the run a VIOLATION without a concrete input
     trusted = []
 
@@ -583,7 +587,7 @@ def run_check(chk, tier, seed, replay=None):
                      (pid, what, len(idxs), cases[idxs[0]], impl[idxs[0]]))
 
     def write_replay(name, body_cases, header):
-        path = os.path.join(VERIF, 'replays', '%s-%s.case' % (pid, name))
+        path = os.path.join(REPLAY_DIR, '%s-%s.case' % (pid, name))
         with open(path, 'w') as f:
             f.write('# %s\n' % header)
             for i in body_cases:
@@ -610,14 +614,14 @@ def run_check(chk, tier, seed, replay=None):
         if found:
             c, a, s, m = found
             h = hashlib.sha1(c.encode()).hexdigest()[:10]
-            path = os.path.join(VERIF, 'replays', '%s-%s.case' % (pid, h))
+            path = os.path.join(REPLAY_DIR, '%s-%s.case' % (pid, h))
             with open(path, 'w') as f:
                 f.write('# property %s violated (found by the violation search after a broken %s)\n' %
                         (pid, 'correspondence' if corr else 'obligation'))
                 f.write('CASE %s\n# observed: %s\n# spec:     %s\n# model:    %s\n' % (c, a, s, m))
             lines.append('VIOLATION property=%s replay=%s' % (pid, path))
         else:
-            path = os.path.join(VERIF, 'replays', '%s-unproved.case' % pid)
+            path = os.path.join(REPLAY_DIR, '%s-unproved.case' % pid)
             with open(path, 'w') as f:
                 f.write('# property %s is no longer shown to hold; no failing input found\n' % pid)
                 for kind, msg in problems:
@@ -669,7 +673,7 @@ def run_check(chk, tier, seed, replay=None):
         'wall_s': round(time.time() - t0, 1),
         'violations': len(viol) + (1 if (exit_code and not viol) else 0),
     }
-    with open(os.path.join(VERIF, 'evidence', pid + '.json'), 'w') as f:
+    with open(os.path.join(EVID_DIR, pid + '.json'), 'w') as f:
         json.dump(ev, f, indent=1)
     for l in lines:
         print(l)
